@@ -1,6 +1,7 @@
 package main
 
 import (
+	"go/token"
 	"fmt"
 	"go/ast"
 	"go/types"
@@ -118,8 +119,7 @@ func (vc *VC) havocFor(st *State, ms modSet, ls *LoopSpec, entry *State) *State 
 		nv.KT, nv.VT, nv.KS, nv.VS = old.KT, old.VT, old.KS, old.VS
 		head.vars[o] = nv
 		head.assume(vc.u.WF(nv.S, old.T, head.alloc))
-		if c, ok := head.cells[o]; ok {
-			_ = c
+		if _, ok := head.cells[o]; ok && !vc.addrTaken[o] {
 			delete(head.cells, o)
 		}
 	}
@@ -590,4 +590,58 @@ func (vc *VC) unrollLoop(st *State, label string, cond func(s *State) string, it
 	vc.targets = vc.targets[:len(vc.targets)-1]
 	exits = append(exits, tg.breaks...)
 	return exits
+}
+
+// addressTaken: local variables whose address is taken in body (explicitly, or implicitly as the receiver of a
+// pointer-receiver method). They live in a heap cell from their first assignment on.
+func (vc *VC) addressTaken(body *ast.BlockStmt) map[types.Object]bool {
+	out := map[types.Object]bool{}
+	if body == nil {
+		return out
+	}
+	ast.Inspect(body, func(n ast.Node) bool {
+		switch x := n.(type) {
+		case *ast.UnaryExpr:
+			if x.Op == token.AND {
+				if id, ok := ast.Unparen(x.X).(*ast.Ident); ok {
+					if o := vc.info.Uses[id]; o != nil {
+						out[o] = true
+					}
+				}
+			}
+		case *ast.CallExpr:
+			se, ok := ast.Unparen(x.Fun).(*ast.SelectorExpr)
+			if !ok {
+				return true
+			}
+			sel, ok := vc.info.Selections[se]
+			if !ok || sel.Kind() != types.MethodVal {
+				return true
+			}
+			id, ok := ast.Unparen(se.X).(*ast.Ident)
+			if !ok {
+				return true
+			}
+			fn, ok := sel.Obj().(*types.Func)
+			if !ok {
+				return true
+			}
+			recv := fn.Type().(*types.Signature).Recv()
+			if recv == nil {
+				return true
+			}
+			if _, isPtr := recv.Type().(*types.Pointer); !isPtr {
+				return true
+			}
+			if o := vc.info.Uses[id]; o != nil {
+				if _, varIsPtr := under(o.Type()).(*types.Pointer); !varIsPtr {
+					if _, isIface := under(o.Type()).(*types.Interface); !isIface {
+						out[o] = true
+					}
+				}
+			}
+		}
+		return true
+	})
+	return out
 }
